@@ -279,7 +279,7 @@ def main(tier, replay=None, prop='C03'):
         for v in r['violations']:
             t = r['task']
             if t['kind'] in ('orders', 'sarif'):
-                role = {'function': 'run_side_effect_analysis', 'kind': v['kind'], 'class': 'hash-order'} if t['kind'] == 'orders' else {'function': 'Report::to_sarif', 'kind': v['kind'], 'class': 'any'}
+                role = {'function': 'analysis passes' if t['t'].get('mode') == 'passes' else 'run_side_effect_analysis', 'kind': v['kind'], 'class': 'hash-order'} if t['kind'] == 'orders' else {'function': 'Report::to_sarif', 'kind': v['kind'], 'class': 'any'}
                 key = json.dumps(role, sort_keys=True)
                 if key in seen: continue
                 seen[key] = 1
@@ -314,7 +314,7 @@ def main(tier, replay=None, prop='C03'):
         rep.bounds = {'definitions': '%d definitions (templates, functions), every storage/analysis order, each in a user or an included file, 0-2 CFG-stage reports, lift succeeding or failing, each pass looking up any one definition or none' % (2 if tier == 'quick' else 3)}
         rep.stubs = ['generate_cfg (emits r fresh reports, then Ok or Err with one more)', 'get_analysis_passes (one pass: one fresh report + one symbolic look-up through AnalysisContext)', 'writer (records)', 'TemplateData/FunctionData::get_file_id', 'FileLibrary::is_user_input']
         rep.assumptions = ['HashMap<String,_> modelled as an association list whose iteration order is the harness-chosen permutation', 'source hash ' + pr.hashes['analysis']]
-        rep.bounds['hash orders'] = 'the whole side-effect pass (taint, constraint analysis, branch regions) on the programs of C09 under four (thorough: six) iteration orders of every HashMap / HashSet (insertion, reverse, rotated, pseudo-random permutations): same multiset of claims'
+        rep.bounds['hash orders'] = 'the whole side-effect pass (taint, constraint analysis, branch regions) on the programs of C09 under four (thorough: six) iteration orders of every HashMap / HashSet (insertion, reverse, rotated, pseudo-random permutations): same multiset of claims; all twelve intra-procedural passes on the straight-line signal templates of C09.family_sig likewise: same multiset of reports'
         rep.outside = ['all other iteration orders and the other passes', 'SSA naming across runs', 'file order on the command line beyond the equal-code scenarios', 'unrelated extra definitions beyond the bound']
         return rep.finish()
     rep.bounds = {'reports': '<= %d reports offered to the writer in three batches (parser, functions, templates), each with symbolic level, 0-2 primary labels over %d files, id from %s' % (2 if tier == 'quick' else 3, NFILES, sorted(IDS.values())),
